@@ -161,20 +161,51 @@ func (u *Unit) ghostAsserts(done ast.Stmt, st *State) {
 		return
 	}
 	k := -1
+	where := ""
 	for i, s := range body {
 		if s == done {
 			k = i
 		}
 	}
 	if k < 0 {
+		// a statement of a loop body: addressed as @L<loop ordinal>.<statement ordinal>
+		var root ast.Node
+		switch {
+		case u.caseClause != nil:
+			root = u.caseClause
+		case u.closureLit != nil:
+			root = u.closureLit.Body
+		case u.fd != nil:
+			root = u.fd.Body
+		}
+		if root != nil {
+			for li, l := range loopsIn(root) {
+				var lb *ast.BlockStmt
+				switch x := l.(type) {
+				case *ast.ForStmt:
+					lb = x.Body
+				case *ast.RangeStmt:
+					lb = x.Body
+				}
+				for i, s := range lb.List {
+					if s == done {
+						k = i
+						where = fmt.Sprintf("L%d.", li)
+					}
+				}
+			}
+		}
+	}
+	if k < 0 {
 		return
 	}
 	for i, c := range b.clauses("assert") {
-		var at int
 		rest := c.Text
-		if n, _ := fmt.Sscanf(c.Text, "@%d", &at); n != 1 || at != k {
+		tag := fmt.Sprintf("@%s%d", where, k)
+		if !strings.HasPrefix(c.Text, tag+" ") {
 			continue
 		}
+		at := k
 		rest = strings.TrimSpace(rest[strings.Index(rest, " "):])
 		e := u.specEv(st, done.End())
 		if u.caseEntry != nil && u.caseClause != nil {
